@@ -163,12 +163,20 @@ class ScriptDevice:
 #  reactive device
 # ------------------------------------------------------------------------------------------------
 class Stream:
+    """One adbd-side stream.  Acknowledgements (OKAY) are emitted by adbd's packet handler as soon as a host WRTE is
+    accepted, independently of the service's own writes, so they live in their own queue: a data item (WRTE/CLSE)
+    queued by the service while processing host WRTE #k can never precede ack #k, but is otherwise free to go before or
+    after later acks (`reorder` choice; default: acks first)."""
+
     def __init__(self, dev, lid, rid, dest):
         self.dev = dev
         self.lid = lid            # the host's id (arg1 of what the device sends)
         self.rid = rid            # the device's id (arg0 of what the device sends)
         self.dest = dest
-        self.q = []               # packets ready to go, FIFO: (cmd, payload, tag)
+        self.acks = []            # (cmd=b'OKAY', payload, tag)
+        self.data = []            # (cmd, payload, tag, after_ack)
+        self.acks_queued = 0
+        self.acks_emitted = 0
         self.awaiting_okay = False
         self.dev_closed = False
         self.host_closed = False
@@ -180,28 +188,49 @@ class Stream:
         self.index = len(dev.all_streams)
 
     def okay(self, tag=None):
-        self.q.append((b'OKAY', b'', tag))
+        self.acks.append((b'OKAY', b'', tag))
+        self.acks_queued += 1
 
     def wrte(self, payload, tag=None):
-        self.q.append((b'WRTE', as_sym(payload), tag))
+        self.data.append((b'WRTE', as_sym(payload), tag, self.acks_queued))
 
     def clse(self, tag=None):
-        self.q.append((b'CLSE', b'', tag))
+        self.data.append((b'CLSE', b'', tag, self.acks_queued))
 
-    def head_ready(self):
-        if not self.q:
+    def data_ready(self):
+        if not self.data:
             return False
-        if self.q[0][0] == b'WRTE' and self.awaiting_okay:
+        cmd, _, _, after = self.data[0]
+        if self.acks_emitted < after:
+            return False
+        if cmd == b'WRTE' and self.awaiting_okay:
             return False
         return True
+
+    def candidates(self):
+        """which of ('ack', 'data') may go on the wire now"""
+        c = []
+        if self.acks:
+            c.append('ack')
+        if self.data_ready():
+            c.append('data')
+        return c
+
+    def head_ready(self):
+        return bool(self.candidates())
+
+    def has_queued_clse(self):
+        return any(x[0] == b'CLSE' for x in self.data)
 
 
 class SimDevice:
     """Reactive adbd model.  Services are objects with on_open(stream), on_wrte(stream, payload), on_okay(stream),
     on_clse(stream).  `pick(ready)` chooses which ready stream's packet goes on the wire next."""
 
-    def __init__(self, ctx, services, maxdata=4096, banner=b'device::\0', auth=None, rid_alloc=None, pick=None, gate=None, monitor=None):
+    def __init__(self, ctx, services, maxdata=4096, banner=b'device::\0', auth=None, rid_alloc=None, pick=None, gate=None, monitor=None, reorder=None):
         self.ctx = ctx
+        self.eager = False
+        self.reorder = reorder            # callable(stream, candidates) -> index : ack vs. data ordering where adbd leaves it free
         self.services = services          # callable(dest_bytes) -> service object or None
         self.maxdata = maxdata
         self.banner = banner
@@ -238,6 +267,15 @@ class SimDevice:
 
     def host_wrote(self, data):
         self.decoder.feed(data)
+        if self.eager:
+            # an eager device puts everything it may send on the wire at once (data can be in flight when the host closes)
+            n = 0
+            while self._ready() and n < 64:
+                before = len(self.emitted)
+                self._fill()
+                if len(self.emitted) == before:
+                    break
+                n += 1
 
     def pending(self):
         if not len(self.wire):
@@ -274,10 +312,21 @@ class SimDevice:
             cmd, a0, a1, payload = pkt
             self._emit(cmd, a0, a1, payload, None, None)
             return
-        cmd, payload, tag = s.q[0]
+        cands = s.candidates()
+        which = cands[0]
+        if len(cands) > 1 and self.reorder is not None:
+            which = cands[self.reorder(s, cands)]
+        if which == 'ack':
+            cmd, payload, tag = s.acks[0]
+        else:
+            cmd, payload, tag, _ = s.data[0]
         if self.gate is not None and not self.gate(self, (cmd, s.rid, s.lid, payload), s):
             return
-        s.q.pop(0)
+        if which == 'ack':
+            s.acks.pop(0)
+            s.acks_emitted += 1
+        else:
+            s.data.pop(0)
         if cmd == b'WRTE':
             s.awaiting_okay = True
             s.dev_wrtes_sent += 1
@@ -362,9 +411,9 @@ class SimDevice:
             s.service.on_okay(s)
         elif cmd == b'CLSE':
             s.host_closed = True
-            if not s.dev_closed and not any(c == b'CLSE' for c, _, _ in s.q):
+            if not s.dev_closed and not s.has_queued_clse():
                 # the host closes first: drop undelivered data, answer with CLSE
-                s.q = [x for x in s.q if x[0] != b'WRTE']
+                s.data = [x for x in s.data if x[0] != b'WRTE']
                 s.clse(tag='reply')
             elif s.dev_closed:
                 self.streams.pop(self._key(s.lid), None)
@@ -607,3 +656,130 @@ class AuthModel:
             self.events.append(('pubkey',))
             if self.accept[0] == 'pubkey':
                 self._cnxn(dev)
+
+
+# ------------------------------------------------------------------------------------------------
+#  stream-protocol monitor (C04): judges the HOST's packets against AOSP protocol.txt stream rules
+# ------------------------------------------------------------------------------------------------
+class MStream:
+    def __init__(self, lid, index):
+        self.lid = lid
+        self.index = index
+        self.rid = None            # announced by the device's first OKAY
+        self.dev_wrtes = 0         # device WRTEs put on the wire so far
+        self.host_okays = 0
+        self.host_wrtes = 0
+        self.host_wrte_outstanding = False
+        self.host_clses = 0
+        self.dev_clse = False
+        self.after_close = 0
+        self.dest = None
+
+
+class Monitor:
+    def __init__(self, ctx):
+        self.ctx = ctx
+        self.streams = []          # all streams, in OPEN order
+        self.live = {}             # lid -> MStream (until host CLSE)
+        self.violations = 0
+
+    def _chk(self, prop, label, detail=None):
+        ok = self.ctx.check(prop, 'protocol: ' + label, detail)
+        if not ok:
+            self.violations += 1
+        return ok
+
+    def streams_by_dest(self, dest):
+        for ms in reversed(self.streams):
+            if ms.dest is not None and ms.dest == dest:
+                return ms
+        return None
+
+    # --- device side (called when a packet goes on the wire, i.e. as the host is reading it)
+    def device_sent(self, cmd, a0, a1, payload, stream, tag):
+        if stream is None:
+            return
+        ms = self._by_lid(stream.lid, any_state=True)
+        if ms is None:
+            return
+        if cmd == b'OKAY':
+            if ms.rid is None:
+                ms.rid = a0
+            if isinstance(tag, tuple) and tag[0] == 'ack':
+                ms.host_wrte_outstanding = False
+        elif cmd == b'WRTE':
+            ms.dev_wrtes += 1
+        elif cmd == b'CLSE':
+            ms.dev_clse = True
+
+    def _by_lid(self, lid, any_state=False):
+        if isinstance(lid, SymInt):
+            for s in reversed(self.streams):
+                if s.lid == lid:
+                    return s
+            return None
+        s = self.live.get(lid)
+        if s is None and any_state:
+            for x in reversed(self.streams):
+                if not isinstance(x.lid, SymInt) and x.lid == lid:
+                    return x
+        return s
+
+    # --- host side
+    def host_sent(self, p):
+        cmd = p.cmd
+        if cmd in (b'CNXN', b'AUTH'):
+            return
+        if cmd == b'OPEN':
+            lid = p.a0
+            self._chk(sand(lid >= 1, lid <= M32), 'OPEN carries a local id in [1, 2^32-1]', detail=repr(lid))
+            self._chk(p.a1 == 0, 'OPEN carries arg1 == 0')
+            pl = p.payload
+            self._chk(len(pl) > 0 and pl[len(pl) - 1] == 0, 'OPEN destination is NUL-terminated')
+            for s in self.live.values():
+                self._chk(s.lid != lid, 'OPEN uses a local id that no open stream is using', detail='%r vs live %r' % (lid, s.lid))
+            ms = MStream(lid, len(self.streams))
+            ms.dest = pl
+            self.streams.append(ms)
+            if not isinstance(lid, SymInt):
+                self.live[lid] = ms
+            return
+        ms = self._by_lid(p.a0)
+        if ms is None:
+            old = self._by_lid(p.a0, any_state=True)
+            if old is not None and old.host_clses:
+                old.after_close += 1
+                self._chk(False, 'nothing is sent on a stream after its CLSE', detail=repr(p))
+            else:
+                self._chk(False, 'every packet after OPEN carries the local id of an open stream', detail=repr(p))
+            return
+        if ms.rid is None:
+            self._chk(False, "nothing is sent on a stream before the device's OKAY announced the remote id", detail=repr(p))
+            return
+        self._chk(p.a1 == ms.rid, 'every later packet carries (local id, remote id announced by the device)', detail=repr(p))
+        if cmd == b'OKAY':
+            ms.host_okays += 1
+            self._chk(ms.host_okays <= ms.dev_wrtes, 'an OKAY is sent only for a device WRTE (never more OKAYs than WRTEs received)',
+                      detail='%d OKAYs for %d device WRTEs' % (ms.host_okays, ms.dev_wrtes))
+        elif cmd == b'WRTE':
+            self._chk(not ms.host_wrte_outstanding, "no second WRTE before the device acknowledged the previous one (stop-and-wait)")
+            ms.host_wrtes += 1
+            ms.host_wrte_outstanding = True
+        elif cmd == b'CLSE':
+            ms.host_clses += 1
+            self._chk(ms.host_clses == 1, 'exactly one CLSE per stream')
+            if not isinstance(ms.lid, SymInt):
+                self.live.pop(ms.lid, None)
+        else:
+            self._chk(False, 'only OKAY/WRTE/CLSE follow an OPEN on a stream', detail=repr(p))
+
+    def finish(self, expect_closed=True, skip=()):
+        """after operations that completed normally"""
+        for ms in self.streams:
+            if ms.index in skip:
+                continue
+            self._chk(ms.host_okays == ms.dev_wrtes, 'every device WRTE that was read is acknowledged with exactly one OKAY',
+                      detail='stream %d: %d OKAYs for %d device WRTEs' % (ms.index, ms.host_okays, ms.dev_wrtes))
+            if expect_closed:
+                self._chk(ms.host_clses == 1, 'the stream is closed with exactly one CLSE (answering the device CLSE or initiating)',
+                          detail='stream %d: %d CLSEs' % (ms.index, ms.host_clses))
